@@ -221,3 +221,56 @@ Proof.
     + rewrite dominates_infeasible in H2 by lra. apply Qlt_bool_iff in H2. lra.
     + rewrite dominates_infeasible in * by lra. apply Qlt_bool_iff in H1, H2. apply Qlt_bool_iff. lra.
 Qed.
+
+(** * relational statements of soundness and completeness *)
+(** p dominates q when larger is better: p at least as good everywhere, strictly better somewhere *)
+Definition dominatesP (p q : list Q) : Prop := paretoP q p.
+
+Lemma domB_dominatesP p q : length p = length q -> (domB p q = true <-> dominatesP p q).
+Proof. intros L. unfold dominatesP. apply domB_paretoP. congruence. Qed.
+
+Lemma filter_sound_rel m wt fmat idx i j : rectm m fmat -> length wt = m -> pareto_idx wt fmat = Some idx ->
+  In i idx -> (j < length fmat)%nat -> ~ dominatesP (nth j (weighted wt fmat) []) (nth i (weighted wt fmat) []).
+Proof.
+  intros HR HW E Hi Hj D. rewrite pareto_idx_eq in E. injection E as <-.
+  assert (Hi' : (i < length fmat)%nat) by (apply survivors_idx in Hi; now apply survivors_In in Hi).
+  apply domB_dominatesP in D; [|rewrite !(W_len m wt fmat HR HW); auto].
+  rewrite (filter_sound_idx m wt fmat HR HW i j Hi Hj) in D. discriminate.
+Qed.
+
+Lemma filter_complete_rel m wt fmat idx i : rectm m fmat -> length wt = m -> pareto_idx wt fmat = Some idx ->
+  (i < length fmat)%nat -> ~ In i idx ->
+  exists j, In j idx /\ j <> i /\ (Forall2 Qeq (nth i (weighted wt fmat) []) (nth j (weighted wt fmat) []) \/
+                                 dominatesP (nth j (weighted wt fmat) []) (nth i (weighted wt fmat) [])).
+Proof.
+  intros HR HW E Hi Hn. rewrite pareto_idx_eq in E. injection E as <-.
+  destruct (filter_complete_idx m wt fmat HR HW i Hi) as (j & Hj & Wj).
+  assert (Hj' : (j < length fmat)%nat) by (apply survivors_idx in Hj; now apply survivors_In in Hj).
+  assert (LL : length (nth j (weighted wt fmat) []) = length (nth i (weighted wt fmat) [])) by (rewrite !(W_len m wt fmat HR HW); auto).
+  exists j. split; [exact Hj|]. split; [intros ->; contradiction|].
+  destruct (gt_any (nth j (weighted wt fmat) []) (nth i (weighted wt fmat) [])) eqn:G.
+  - right. apply domB_dominatesP; [exact LL|]. unfold domB. now rewrite Wj, G.
+  - left. apply mutual_wd_eq; [congruence | exact Wj | exact G].
+Qed.
+
+(** the same statement with the columns of the point matrix rescaled *)
+Lemma Qmult_perm_leibniz (r c w : Q) : (r * c) * w = r * (w * c).
+Proof. unfold Qmult. cbn. f_equal; [ring | rewrite <- Pos.mul_assoc; f_equal; apply Pos.mul_comm]. Qed.
+
+Lemma wrow_scaled_row : forall r wt c, wrow wt (map2 Qmult r c) = wrow (map2 Qmult wt c) r.
+Proof.
+  unfold wrow. induction r as [|x r IH]; intros [|w wt] [|a c]; cbn; try reflexivity.
+  now rewrite IH, Qmult_perm_leibniz.
+Qed.
+
+Lemma positive_rescale_columns m wt c fmat : rectm m fmat -> length wt = m -> length c = m -> Forall (fun a => 0 < a) c ->
+  pareto_idx wt (map (fun r => map2 Qmult r c) fmat) = pareto_idx wt fmat /\
+  pareto_mask wt (map (fun r => map2 Qmult r c) fmat) = pareto_mask wt fmat.
+Proof.
+  intros HR HW HC Hpos. destruct (positive_rescale_invariant m wt c fmat HR HW HC Hpos) as [E1 E2].
+  assert (EW : weighted wt (map (fun r => map2 Qmult r c) fmat) = weighted (map2 Qmult wt c) fmat).
+  { unfold weighted. rewrite map_map. apply map_ext. intro r. apply wrow_scaled_row. }
+  assert (E : pareto_idx wt (map (fun r => map2 Qmult r c) fmat) = pareto_idx (map2 Qmult wt c) fmat).
+  { unfold pareto_idx. rewrite EW, map_length. reflexivity. }
+  split; [now rewrite E|]. unfold pareto_mask. rewrite E, map_length. fold (pareto_mask (map2 Qmult wt c) fmat). exact E2.
+Qed.
